@@ -109,14 +109,14 @@ impl Oplog {
                 let h1_outcome = if let Some(h1) =
                     existing.get(OplogSlot::FirstHeader as usize..OplogSlot::SecondHeader as usize)
                 {
-                    Self::validate_leader(h1)?
+                    Self::validate_header_slot(h1)?
                 } else {
                     None
                 };
                 let h2_outcome = if let Some(h2) =
                     existing.get(OplogSlot::SecondHeader as usize..OplogSlot::Entries as usize)
                 {
-                    Self::validate_leader(h2)?
+                    Self::validate_header_slot(h2)?
                 } else {
                     None
                 };
@@ -394,6 +394,17 @@ impl Oplog {
             ]
             .into_boxed_slice(),
         ))
+    }
+
+    /// Validates a header slot. A slot whose checksum does not match was being written when
+    /// the process died; it counts as absent so that the other, intact slot is used.
+    fn validate_header_slot(
+        buffer: &[u8],
+    ) -> Result<Option<ValidateLeaderOutcome<'_>>, HypercoreError> {
+        match Self::validate_leader(buffer) {
+            Err(HypercoreError::InvalidChecksum { .. }) => Ok(None),
+            outcome => outcome,
+        }
     }
 
     /// Validates that leader at given index is valid, and returns header and partial bits and
